@@ -5,6 +5,7 @@ package main
 
 import (
 	"encoding/binary"
+	"time"
 
 	"github.com/aldas/go-modbus-client/packet"
 )
@@ -15,6 +16,7 @@ func init() {
 	streams["c12"] = func(seed uint64, thorough bool) { clntStream(seed, thorough, false, clntGenC12) }
 	streams["c19"] = clntStreamC19
 	streams["c08seq"] = func(seed uint64, thorough bool) { clntStream(seed, thorough, false, clntGenSeq) }
+	streams["cpar"] = clntStreamPar
 }
 
 type clntGen func(r *rng, thorough bool, f func(c *clntCase))
@@ -52,6 +54,7 @@ func clntStreamC19(seed uint64, thorough bool) {
 	clntGenC07(r, false, sample(3))
 	clntGenC08(r, false, sample(2))
 	clntGenC12(r, false, sample(12))
+	clntGenRolling(r, sample(1))
 	run.flush()
 }
 
@@ -79,11 +82,127 @@ type clntRq struct {
 	data  []byte
 	req   packet.Request
 	tid   int
+
+	rolling bool // req is wrapped in a clntRollingReq
 }
 
 func (q *clntRq) val() V {
 	a := append([]V{S(q.name), I(q.fr)}, q.cargs...)
+	if q.rolling {
+		a = append([]V{I(1)}, a...)
+	}
 	return L(append(a, I(q.tid))...)
+}
+
+// clntRoll wraps the request in a user-defined packet.Request whose Bytes() changes on every call
+func clntRoll(q *clntRq) *clntRq {
+	q.req = &clntRollingReq{Request: q.req}
+	q.rolling = true
+	return q
+}
+
+// clntGenRolling: requests with a non-idempotent Bytes(): normal exchanges, faults after the write,
+// a failing write, and calls that fail before Bytes() is needed
+func clntGenRolling(r *rng, f func(c *clntCase)) {
+	i := 0
+	for kind := 0; kind < 3; kind++ {
+		fr := clntFrOf(kind)
+		for _, fc := range fcs {
+			for variant := 0; variant < 2; variant++ {
+				mkq := func() *clntRq { return clntRoll(clntMkRq(r, fc, fr, variant)) }
+				emit := func(q *clntRq, conn bool, sc clntScript, want V) {
+					i++
+					f(&clntCase{kind: kind, conn: conn, flusher: i%2 == 0, hooks: true, rq: q, sc: sc, want: want})
+				}
+				q := mkq()
+				rep := q.reply(r)
+				b := rep.bytes
+				emit(q, true, clntScript{steps: clntCut(b)}, rep.want)
+				q = mkq()
+				rep = q.reply(r)
+				b = rep.bytes
+				emit(q, true, clntScript{steps: clntCutAs(b, clntClassMixes[i%4], 1+r.intn(len(b)-1))}, rep.want)
+				q = mkq()
+				rep = q.reply(r)
+				emit(q, true, clntScript{wr: true, steps: clntCut(rep.bytes)}, rep.want)
+				q = mkq()
+				rep = q.reply(r)
+				emit(q, true, clntScript{steps: []clntStep{clntData(rep.bytes[:1]), clntIOErr(nil)}}, rep.want)
+				q = mkq()
+				rep = q.reply(r)
+				emit(q, false, clntScript{steps: clntCut(rep.bytes)}, rep.want)
+				if kind != 2 {
+					q = mkq()
+					rep = q.reply(r)
+					emit(q, true, clntScript{swd: true, steps: clntCut(rep.bytes)}, rep.want)
+				}
+			}
+		}
+	}
+}
+
+// clntStreamPar: batches of independent clients, each with its own scripted transport, that are inside
+// Do AT THE SAME TIME: first a round of calls that end in "total read timeout exceeded", then 16
+// fragmented successful exchanges with hooks whose reads advance in lock step.  Entries are plain
+// "cdo" cases, emitted in generation order: a client must not see another client's bytes.
+func clntStreamPar(seed uint64, thorough bool) {
+	r := newRng(seed)
+	run := &clntRunner{}
+	n := 0
+	add := func(c *clntCase) {
+		clntRotateCtor(c, &n)
+		run.add(c)
+	}
+	batches := 12
+	if thorough {
+		batches = 120
+	}
+	const width = 16
+	reqFor := func(kind int) (*clntRq, clntReply) {
+		fc := []int{3, 4, 1, 16, 3}[r.intn(5)]
+		if kind != 0 && fc == 16 {
+			fc = 15
+		}
+		q := clntMkRq(r, fc, clntFrOf(kind), 2)
+		return q, q.reply(r)
+	}
+	for b := 0; b < batches; b++ {
+		for j := 0; j < width; j++ {
+			kind := (b + j) % 3
+			q, rep := reqFor(kind)
+			k := r.intn(q.req.ExpectedResponseLength() - 1)
+			if k > len(rep.bytes)-1 {
+				k = len(rep.bytes) - 1
+			}
+			steps := []clntStep{clntQuiet(), clntTimer()}
+			if k > 0 {
+				steps = append([]clntStep{clntData(rep.bytes[:k])}, steps...)
+			}
+			add(&clntCase{kind: kind, conn: true, flusher: j%2 == 0, hooks: j%3 != 0, rq: q,
+				sc: clntScript{steps: steps, timerT: 150 * time.Millisecond}, want: rep.want})
+		}
+		run.flush()
+		gate := clntNewGate(width)
+		for j := 0; j < width; j++ {
+			kind := (b + j) % 3
+			q, rep := reqFor(kind)
+			bs := rep.bytes
+			// four reads each, never cut at len-1 (D7)
+			n := len(bs)
+			c1 := 1 + r.intn(n/3)
+			c2 := c1 + 1 + r.intn(n/3)
+			c3 := c2 + 1 + r.intn(n-2-c2)
+			if c3 >= n-1 {
+				c3 = n - 2
+			}
+			if c3 <= c2 {
+				c2, c3 = c1+1, c1+2
+			}
+			add(&clntCase{kind: kind, conn: true, flusher: j%2 == 0, hooks: true, rq: q,
+				sc: clntScript{steps: clntCutAs(bs, clntClassMixes[j%4], c1, c2, c3), gate: gate}, want: rep.want})
+		}
+		run.flush()
+	}
 }
 
 func clntMust(r packet.Request, err error) packet.Request {
@@ -662,6 +781,19 @@ func clntGenC08(r *rng, thorough bool, f func(c *clntCase)) {
 			mk(kind, q, rep, clntScript{swd: true, steps: whole})
 			mk(kind, q, rep, clntScript{swd: true, wr: true, steps: whole})
 			mk(kind, q, rep, clntScript{steps: append([]clntStep{clntCtx()}, whole...)})
+			// the context is already done (cancelled / its deadline passed) when the call is made, and the
+			// transport would deliver the complete reply in the very first read: never a success
+			for _, ctxKind := range []int{1, 2} {
+				mk(kind, q, rep, clntScript{steps: []clntStep{{ctx: ctxKind, rd: clntRdData, data: rep.bytes}}})
+				mk(kind, q, rep, clntScript{steps: []clntStep{{ctx: ctxKind, rd: clntRdEOF, data: rep.bytes}, clntQuiet()}})
+				// ... or it is done after a first part, and the rest would arrive in the next read
+				c := 1 + r.intn(len(rep.bytes)-1)
+				if c > q.req.ExpectedResponseLength()-1 {
+					c = q.req.ExpectedResponseLength() - 1
+				}
+				mk(kind, q, rep, clntScript{steps: []clntStep{clntData(rep.bytes[:c]),
+					{ctx: ctxKind, rd: clntRdData, data: rep.bytes[c:]}}})
+			}
 			i++
 			f(&clntCase{kind: kind, conn: false, flusher: i%2 == 0, hooks: true, rq: q, sc: clntScript{steps: whole}, want: rep.want})
 			f(&clntCase{kind: kind, conn: false, hooks: false, rq: q, sc: clntScript{steps: whole}, want: rep.want})
@@ -887,6 +1019,73 @@ func clntGenSeq(r *rng, thorough bool, f func(c *clntCase)) {
 			}
 			emit(true, normal(), closeOp, normal(), normal())
 			emit(true, closeOp, closeOp, normal())
+		}
+		// a call whose single read blocks LONGER than the read timeout and then delivers the whole reply
+		// succeeds; the next call on the same client must not inherit the expired timer
+		slow := func() clntOp {
+			o := normal()
+			q := o.rq
+			rep := q.reply(r)
+			o.want = rep.want
+			o.sc = clntScript{steps: []clntStep{clntData(rep.bytes), clntTimer()}}
+			return o
+		}
+		for j := 0; j < 6; j++ {
+			if kind != 2 {
+				emit(false, connect, slow(), normal())
+				emit(false, connect, slow(), slow(), normal(), closeOp)
+			} else {
+				emit(true, slow(), normal())
+				emit(true, slow(), slow(), normal())
+			}
+		}
+		// a good read response, then calls that FAIL after receiving bytes (bad CRC / wrong length,
+		// truncated then timeout or end of stream, I/O error), then a good one: what the first call
+		// returned must not change
+		for j := 0; j < 30; j++ {
+			var ops []clntOp
+			if kind != 2 {
+				ops = append(ops, connect)
+			}
+			fc := 1 + r.intn(4)
+			variant := r.intn(4)
+			good := func() clntOp {
+				q := clntMkRq(r, fc, fr, variant)
+				rep := q.reply(r)
+				return clntOp{what: 2, rq: q, sc: clntScript{steps: clntCutAs(rep.bytes, []int{r.intn(2)})}, want: rep.want}
+			}
+			bad := func() clntOp {
+				q := clntMkRq(r, fc, fr, variant)
+				rep := q.reply(r)
+				b := append([]byte(nil), rep.bytes...)
+				var steps []clntStep
+				switch r.intn(4) {
+				case 0: // corrupted payload: bad CRC (RTU) / same bytes with a wrong byte count (TCP)
+					b[len(b)/2+1] ^= 0x55
+					if kind == 0 {
+						b[8]++
+					}
+					steps = clntCut(b)
+				case 1: // truncated, then the total timer
+					steps = []clntStep{clntData(b[:len(b)-3]), clntQuiet(), clntTimer()}
+					if q.req.ExpectedResponseLength() <= len(b)-3 {
+						steps = []clntStep{clntData(b[:2]), clntQuiet(), clntTimer()}
+					}
+				case 2: // truncated, then the stream ends
+					steps = append([]clntStep{clntData(b[:len(b)-3]), clntEOF(nil)}, clntTail()...)
+				default:
+					steps = []clntStep{clntData(b[:len(b)/2]), clntIOErr(b[len(b)/2 : len(b)/2+2])}
+				}
+				return clntOp{what: 2, rq: q, sc: clntScript{steps: steps}}
+			}
+			ops = append(ops, good(), bad())
+			if r.intn(2) == 0 {
+				ops = append(ops, bad())
+			}
+			if r.intn(2) == 0 {
+				ops = append(ops, good())
+			}
+			emit(true, ops...)
 		}
 		// 2..4 successful read exchanges with DIFFERENT payloads on one client: what the first call
 		// returned must still be what it returned after the later calls
